@@ -26,6 +26,8 @@ def states(tier, seed):
     sides = [("left", 2), ("left", 3), ("full", 3)] + ([("full", 5), ("left", 5)] if tier == "thorough" else [])
     for lay, (side, ny), model in itertools.product(["rect", "swept", "twdi"], sides, ["tube", "wingbox"]):
         st.append(dict(part="stress", layout=lay, side=side, ny=ny, model=model, fam=fam))
+        if lay == "swept":
+            st.append(dict(part="stress", layout=lay, side=side, ny=ny, model=model, gscale=1.0e-3, fam=fam))
     for N, model, pat, mag, yld, rho in itertools.product(range(1, 9), ["tube", "wingbox"], ["equal", "peak", "ladder", "zeros", "two_max"], [0.0, 1.0, 1e6, 1e9, 1e12], [1.0, 2e8], [10.0, 100.0]):
         st.append(dict(part="ks", N=N, model=model, pattern=pat, mag=mag, yld=yld, rho=rho, fam=fam))
     # the distances that turn curvature into the extreme-fibre bending stresses of the wingbox (htop, hbottom): geometric depth of
@@ -65,6 +67,10 @@ def vm_problem(s, nodes):
         p.model.add_subsystem("v", VonMisesWingbox(surface=surf), promotes=["*"])
         for k, (nm, lo, hi) in enumerate([("Qz", 1e-3, 3e-3), ("J", 2e-4, 5e-4), ("A_enc", 0.05, 0.1), ("spar_thickness", 4e-3, 8e-3), ("htop", 0.08, 0.12), ("hbottom", 0.07, 0.11), ("hfront", 0.2, 0.3), ("hrear", 0.15, 0.25)]):
             sec[nm] = gen.gen((ny - 1,), 10 + k, lo, hi, s["fam"])
+    gs = s.get("gscale", 1.0)
+    power = {"radius": 1, "Qz": 3, "J": 4, "A_enc": 2}
+    for k in sec:
+        sec[k] = sec[k] * gs ** power.get(k, 1)
     p.setup()
     p.set_val("nodes", nodes)
     for k, v in sec.items():
@@ -74,7 +80,9 @@ def vm_problem(s, nodes):
 
 def part_stress(s):
     ny = s["ny"]
-    m = gen.make_mesh(s["layout"], 2, ny, s["side"], s["fam"], asym=(s["side"] == "full"), span=10.0, chord=1.0)
+    # gscale: the same beam at model scale (elements of millimetres): the closed forms have no length scale built in
+    gs = s.get("gscale", 1.0)
+    m = gen.make_mesh(s["layout"], 2, ny, s["side"], s["fam"], asym=(s["side"] == "full"), span=10.0, chord=1.0) * gs
     nodes = 0.65 * m[0] + 0.35 * m[-1]
     p, sec = vm_problem(s, nodes)
     tssf = 1.3
@@ -93,7 +101,7 @@ def part_stress(s):
 
     span = np.abs(nodes[-1] - nodes[0]).max()
     # reference stress level: E * (strain of a 1e-3 relative stretch)
-    generic = np.concatenate([gen.gen((ny, 3), 1, -2e-2, 3e-2, s["fam"]), gen.gen((ny, 3), 2, -1e-2, 1e-2, s["fam"])], axis=1)
+    generic = np.concatenate([gs * gen.gen((ny, 3), 1, -2e-2, 3e-2, s["fam"]), gen.gen((ny, 3), 2, -1e-2, 1e-2, s["fam"])], axis=1)
     v0 = vm(generic)
     sref = np.abs(v0).max()
     val += 1
@@ -129,7 +137,7 @@ def part_stress(s):
         # stress level of a comparable non-rigid motion: E * 0.37 / span
         if not e <= 1e-9 * E_ * 0.37 / span:
             bad("rigid_translation", "translation along axis %d produces stress %.3e Pa" % (k, e), e)
-    pivot = np.array([0.4, -0.7, 0.2])
+    pivot = np.array([0.4, -0.7, 0.2]) * gs
     for k in range(3):
         th = 1e-3
         w = np.zeros(3)
